@@ -204,6 +204,26 @@ func TestC08_Decode(t *testing.T) {
 // jsonExpressible: the JSON form denotes the same configuration only when the body's
 // label counts agree with the spec's at every level (JSON derives label levels from
 // the schema) and no free-form attributes block is involved in a mismatch.
+// blockLike is a block or a dynamic block generating blocks of that type.
+type blockLike struct {
+	Type    string
+	NLabels int
+	Body    *ast.Body
+}
+
+func blockLikes(body *ast.Body) []blockLike {
+	var out []blockLike
+	for _, it := range body.Items {
+		switch x := it.(type) {
+		case ast.Block:
+			out = append(out, blockLike{x.Type, len(x.Labels), x.Body})
+		case ast.Dyn:
+			out = append(out, blockLike{x.Type, len(x.Labels), x.Content})
+		}
+	}
+	return out
+}
+
 func jsonExpressible(s *gen.SpecM, body *ast.Body) bool {
 	ok := true
 	counts := map[string]int{}
@@ -218,17 +238,17 @@ func jsonExpressible(s *gen.SpecM, body *ast.Body) bool {
 			}
 		}
 	})
-	for _, bl := range body.Blocks() {
+	for _, bl := range blockLikes(body) {
 		n, known := counts[bl.Type]
 		if !known {
 			// an unexpected block type: JSON reports an extraneous property too, but cannot tell how
 			// many label levels it has; fine as long as it has none
-			if len(bl.Labels) != 0 {
+			if bl.NLabels != 0 {
 				ok = false
 			}
 			continue
 		}
-		if n != len(bl.Labels) {
+		if n != bl.NLabels {
 			ok = false
 			continue
 		}
@@ -244,11 +264,11 @@ func jsonExpressible(s *gen.SpecM, body *ast.Body) bool {
 	}
 	// all blocks of one type must have one label count
 	seen := map[string]int{}
-	for _, bl := range body.Blocks() {
-		if n, dup := seen[bl.Type]; dup && n != len(bl.Labels) {
+	for _, bl := range blockLikes(body) {
+		if n, dup := seen[bl.Type]; dup && n != bl.NLabels {
 			ok = false
 		}
-		seen[bl.Type] = len(bl.Labels)
+		seen[bl.Type] = bl.NLabels
 	}
 	// an attribute named like a block type (or vice versa) is ambiguous in JSON
 	for _, a := range body.Attrs() {
